@@ -87,7 +87,7 @@ Theorem C08_heading_markup :
       /\ (forall q, pos <= q < pos + level -> char_at (b_src st) q = Some 35)
       /\ (pos + level < e -> is_space_at (b_src st) (pos + level) = true)
       /\ tmap o = Some (sl, sl + 1) /\ tmap i = Some (sl, sl + 1)
-      /\ tcontent i = py_strip (slice (b_src st) (pos + level) m2).
+      /\ tcontent i = strip_by is_space (slice (b_src st) (pos + level) m2).
 Proof. exact r_heading_markup. Qed.
 Print Assumptions C08_heading_markup.
 
